@@ -713,6 +713,81 @@ func (c *Ctx) c19Objects() {
 	}
 }
 
+// c19TailAfterLiteral: natives reached by a tail call (return nat(...)) hand all the results the enclosing function
+// declares to its caller, also when a function literal with another result count (a callback handed to a native)
+// was compiled earlier in that body - through Call, Func and from a script caller
+func (c *Ctx) c19TailAfterLiteral() {
+	var seen []string
+	vm := goat.New()
+	vm.Set("main.minmax", goat.NewFunc(1, 2, func(vm *goat.VM, args []goat.Value) []goat.Value {
+		lo, hi := 0, 0
+		next := args[0].Range()
+		for first := true; ; first = false {
+			_, v, ok := next()
+			if !ok {
+				break
+			}
+			if first || v.Int() < lo {
+				lo = v.Int()
+			}
+			if first || v.Int() > hi {
+				hi = v.Int()
+			}
+		}
+		return []goat.Value{goat.Int(lo), goat.Int(hi)}
+	}))
+	vm.Set("main.twice", goat.NewFunc(1, 1, func(vm *goat.VM, args []goat.Value) goat.Value { return goat.Int(2 * args[0].Int()) }))
+	vm.Set("main.each", goat.NewFunc(2, 0, func(vm *goat.VM, args []goat.Value) {
+		for i := 0; i < args[0].Int(); i++ {
+			if _, err := vm.Func(args[1], 0, goat.Int(i)); err != nil {
+				panic(err)
+			}
+		}
+	}))
+	vm.Set("main.note", goat.NewFunc(1, 0, func(vm *goat.VM, args []goat.Value) { seen = append(seen, fmt.Sprint(args[0].Int())) }))
+	vm.Set("main.trio", goat.NewFunc(0, 3, func(vm *goat.VM, args []goat.Value) []goat.Value {
+		return []goat.Value{goat.Int(1), goat.String("a"), goat.Bool(true)}
+	}))
+	src := "import \"golang.org/x/exp/slices\"\n\nfunc stats(xs []int) (int, int) {\n\tslices.SortFunc(xs, func(a, b int) bool { return a < b })\n\treturn minmax(xs)\n}\n\n" +
+		"func run(x int) int {\n\teach(3, func(i int) { note(i) })\n\treturn twice(x)\n}\n\nfunc same(x int) int {\n\teach(1, func(i int) int { return i })\n\treturn twice(x)\n}\n\n" +
+		"func three() (int, string, bool) {\n\tf := func() (int, int) { return 1, 2 }\n\tf()\n\teach(2, func(i int) { note(i + 10) })\n\treturn trio()\n}\n\n" +
+		"func viaScript(x int) int {\n\tlo, hi := stats([]int{x, 9, 4})\n\ta, s, ok := three()\n\tif ok {\n\t\tlo += a + len(s)\n\t}\n\treturn lo*100 + hi*10 + run(x)\n}\n"
+	if _, err := vm.Eval(fstest.MapFS{}, "main", src); err != nil {
+		c.Rep.Violate(Violation{Kind: "oracle", Cut: "tail-call-after-literal", Input: src, Impl: err.Error(), Oracle: "evaluates"})
+		return
+	}
+	xs := func() goat.Value {
+		return goat.NewSlice(goat.TypeInt32, []goat.Value{goat.Int(5), goat.Int(9), goat.Int(4)})
+	}
+	for _, q := range []struct {
+		what string
+		f    func() ([]goat.Value, error)
+		want string
+	}{
+		{"Call main.stats, 2 results", func() ([]goat.Value, error) { return vm.Call("main.stats", 2, xs()) }, "ok 4 9"},
+		{"Func main.stats, 2 results", func() ([]goat.Value, error) { return vm.Func(vm.Get("main.stats"), 2, xs()) }, "ok 4 9"},
+		{"Call main.stats, 1 result", func() ([]goat.Value, error) { return vm.Call("main.stats", 1, xs()) }, "ok 4"},
+		{"Call main.run", func() ([]goat.Value, error) { return vm.Call("main.run", 1, goat.Int(21)) }, "ok 42"},
+		{"Call main.same", func() ([]goat.Value, error) { return vm.Call("main.same", 1, goat.Int(4)) }, "ok 8"},
+		{"Call main.three", func() ([]goat.Value, error) { return vm.Call("main.three", 3) }, "ok 1 a true"},
+		{"Call main.viaScript", func() ([]goat.Value, error) { return vm.Call("main.viaScript", 1, goat.Int(2)) }, "ok 494"},
+	} {
+		var rets []goat.Value
+		var err error
+		if e := try(func() { rets, err = q.f() }); e != nil {
+			err = fmt.Errorf("PANIC %v", e)
+		}
+		c.Rep.Oracle["tail-call-after-literal"]++
+		if got := c19Show(rets, err); got != q.want {
+			c.Rep.Violate(Violation{Kind: "oracle", Cut: "tail-call-after-literal", Input: q.what + " of:\n" + src, Impl: got, Oracle: q.want})
+		}
+	}
+	c.Rep.Oracle["tail-call-after-literal"]++
+	if got, want := strings.Join(seen, " "), "0 1 2 10 11 10 11 0 1 2"; got != want {
+		c.Rep.Violate(Violation{Kind: "oracle", Cut: "tail-call-after-literal", Input: "the values the callbacks passed to the native note, in order", Impl: got, Oracle: want})
+	}
+}
+
 // c19ValueFormWithArgs: a native of the form func(vm) Value cannot read arguments, but registered with an arity it
 // still delivers its result (not the first argument; fix b462b86), and a wrong argument count is an error
 func (c *Ctx) c19ValueFormWithArgs() {
@@ -893,6 +968,7 @@ func runC19(c *Ctx) error {
 	c.c19Nils()
 	c.c19Objects()
 	c.c19ValueFormWithArgs()
+	c.c19TailAfterLiteral()
 	c.c19RoundTrips(nr)
 	return nil
 }
